@@ -37,14 +37,14 @@ func init() {
 	register(&CheckDef{
 		ID: "C01",
 		Jobs: func(tier string) []sym.Job {
-			if tier == "thorough" {
-				return reqJobs("VH_C01_encode", rng(0, 2001), rng(0, 260), nil)
-			}
-			return reqJobs("VH_C01_encode", coilQ, byteQ, nil)
+			// the whole range is cheap enough (about 20 s) to be run on every change
+			_ = coilQ
+			_ = byteQ
+			return reqJobs("VH_C01_encode", rng(0, 2001), rng(0, 260), nil)
 		},
 		Bounds: map[string]string{
-			"quick":    "20 constructors; unit id, transaction id, addresses, quantities symbolic over their whole range; FC15 coil counts {0,1,2,7,8,9,15,16,17,63,64,65,1967,1968,1969,2000} with symbolic coil values; FC16/FC23 data lengths {0..5,240..250,252} bytes with symbolic contents",
-			"thorough": "FC15 coil counts 0..2001; FC16/FC23 data lengths 0..260",
+			"quick":    "20 constructors; unit id, transaction id, addresses, quantities symbolic over their whole range; FC15: every coil count 0..2001 with symbolic coil values; FC16/FC23: every data length 0..260 bytes with symbolic contents",
+			"thorough": "same as quick (the bound is the claim)",
 		},
 		Outside:   []string{"FC15 slices longer than 2001 coils and FC16/23 data longer than 260 bytes (rejected on length alone)", "FC6 data argument of a length other than 2 bytes"},
 		MinCovers: []string{"constructed", "constructor-rejects"},
